@@ -314,6 +314,8 @@ theorem stepInstr_noMapFault (s : St) (i : Instr) (hm : MB s.ctx) {w : String} (
       · cases h
       · rename_i heq; cases h; exact attrSet_notMap _ _ _ _ _ heq
     · cases h; exact not_mapFault_stack
+  · exact wc _ _ (fun w' hw' => putGlyph_notMap _ _ _ hw') h
+  · exact wc _ _ (fun w' hw' => putSubs_notMap _ _ _ _ _ hw') h
   · split at h
     · cases h; exact not_mapFault_opcode
     · split at h
